@@ -5,6 +5,7 @@
 From CJ Require Import Common.Base.
 From CJ Require C08.Model C01.Model C14.Model.
 From CJ Require Import C02.Model C02.Spec C02.ProofsWrap C02.ProofsTop C02.Bridge08 C02.Sim08 C02.Bridge01.
+From CJ Require Import C02.ModelConn C02.ConnGen C02.BridgeConn08.
 
 (* ---- C08: found_implies_registered over real time *)
 Theorem C02_rt_found_implies_registered_min :
@@ -133,3 +134,40 @@ Theorem C02_e2e_prefix_only_that_registration :
     In (hm secret D.label_prefix, r) v /\ r_transport r = tt_prefix.
 Proof. exact e2e_prefix_only. Qed.
 Print Assumptions C02_e2e_prefix_only_that_registration.
+
+(* ---- C08, connection level: the read loop of handleNewTCPConn over the registry in real time.  For every history
+        that interleaves C08's operations (Track / Validate / MarkActive / Advance d / Sweep / ...) with the steps of
+        one open connection, and every choice of the iteration orders: a matched connection was matched by one definite
+        Read, and the registration it got is registered_rt IN THE HISTORY UP TO THAT READ - a C08 registration on that
+        phantom under the identifier the bytes carry, valid, validated by an operation of that history and tracked ever
+        since, alive with its age at that moment *)
+Theorem C02_rt_conn_match_is_registered_at_match_step :
+  forall enc name_of params_of reveal mark hs table keys ph evs t r c b,
+    snd (rt_run enc name_of params_of reveal mark hs table keys ph evs) = CMatched t r c b ->
+    exists pre chunk ch post buf poss,
+      evs = pre ++ GRead R.rop chunk ch :: post /\
+      snd (rt_run enc name_of params_of reveal mark hs table keys ph pre) = CReading buf poss /\
+      b = buf ++ chunk /\ mem_tk t poss = true /\
+      carried_rt enc name_of params_of reveal mark hs table keys (rt_ops pre) ph t b c r.
+Proof. exact rt_conn_match_step. Qed.
+Print Assumptions C02_rt_conn_match_is_registered_at_match_step.
+
+(* if the sweeper ran before that Read and no time has passed since, the matched registration is within its lifetime
+   at the moment of the match: at most 10 minutes old, or used and at most 6 hours old *)
+Theorem C02_rt_conn_match_within_lifetime :
+  forall enc name_of params_of reveal mark hs table keys ph evs t r c b,
+    snd (rt_run enc name_of params_of reveal mark hs table keys ph evs) = CMatched t r c b ->
+    exists pre chunk ch post,
+      evs = pre ++ GRead R.rop chunk ch :: post /\
+      forall h0 tl, rt_ops pre = h0 ++ R.Sweep :: tl -> no_time tl ->
+        exists k a u, R.k_ph k = ph /\ r = info name_of params_of k /\
+          R.ghost (rt_ops pre) k = Some (a, u) /\ (a <= R.ten_min \/ (u = true /\ a <= R.six_h)).
+Proof. exact rt_conn_match_in_lifetime. Qed.
+Print Assumptions C02_rt_conn_match_within_lifetime.
+
+(* the handler never changes the registry; every step sees the state produced by exactly the operations before it *)
+Theorem C02_rt_conn_registry_is_live :
+  forall enc name_of params_of reveal mark hs table keys ph evs,
+    fst (rt_run enc name_of params_of reveal mark hs table keys ph evs) = R.run (rt_ops evs).
+Proof. exact rt_run_registry. Qed.
+Print Assumptions C02_rt_conn_registry_is_live.
